@@ -55,6 +55,11 @@ PREFIXES = {
     'mixed': [CREATE, SUG('w1', 2), {'op': 'CompleteTrial', 'trial': T(1), 'final': {'metrics': {'obj': 1.0}}},
               {'op': 'AddTrialMeasurement', 'trial': T(2), 'm': {'metrics': {'obj': 0.5}, 'steps': 1}},
               {'op': 'UpdateMetadata', 'study': STUDY, 'delta': [[None, 'u', 'k', 'v0'], [2, 'u', 'k', 'v0']]}],
+    # a refused call in the prefix (metadata update naming a missing trial, with study-level and
+    # existing-trial parts): nothing of it may be pending when later calls commit or the server dies
+    'refused_md': [CREATE, SUG('w1', 2),
+                   {'op': 'UpdateMetadata', 'study': STUDY, 'delta': [[None, 'u', 'r', 'refused'], [1, 'u', 'r', 'refused'],
+                                                                    [99, 'u', 'r', 'refused']]}],
     'two_studies': [CREATE, {'op': 'CreateStudy', 'owner': 'o', 'display': 's2', 'algo': 'VVSTUB'}, SUG('w1', 1),
                     {'op': 'SuggestTrials', 'study': 'owners/o/studies/s2', 'count': 1, 'client': 'w1', '_stub_entry': {'delta': 0}}],
 }
@@ -346,7 +351,7 @@ def applicable(pname, vname):
   v = VICTIMS[vname][1]
   trials_needed = {'AddTrialMeasurement': 2, 'CompleteTrial': 2, 'CompleteInfeasible': 1, 'StopTrial': 2, 'DeleteTrial': 1,
                    'UpdateMetadata': 2, 'EarlyStop': 2}
-  have = {'fresh': 0, 'two_active': 2, 'pool': 3, 'mixed': 2, 'two_studies': 1}[pname]
+  have = {'fresh': 0, 'two_active': 2, 'pool': 3, 'mixed': 2, 'two_studies': 1, 'refused_md': 2}[pname]
   return have >= trials_needed.get(vname, 0)
 
 
